@@ -14,6 +14,7 @@ use std::sync::atomic::Ordering;
 use std::time::Duration;
 
 #[derive(Clone, Copy, Debug, PartialEq)]
+#[repr(usize)]
 enum PK {
     None,
     User,
@@ -123,6 +124,17 @@ fn body(pool: &Pool, s: &Script, rng: &mut Rng, obs: &mut Obs) {
         }
         picks.push((ti, k));
     }
+    // in half of the scripts C re-fakes the function A already faked (the same function twice in one
+    // injector: the restore order matters on every exit path)
+    if (s.pos + s.pending.len() + s.kind as usize) % 2 == 0 {
+        let ti = picks[0].0;
+        let ks = kinds_of(pool.targets[ti].fam);
+        let mut k = *rng.pick(ks);
+        if k == Kind::FakeTimes {
+            k = ks[0];
+        }
+        picks[2] = (ti, k);
+    }
     // the over-call / when-reject victims: a method fake with `when: a == 5` and budget 1
     let method = pool.targets.iter().position(|t| t.fam == Fam::Method).unwrap();
     let mut step = 0usize;
@@ -213,7 +225,7 @@ thread_local! {
 
 pub fn run(ctx: &Ctx) {
     let scripts = gen(ctx);
-    let pool = std::sync::Arc::new(build_pool(ctx.seed));
+    let pool = std::sync::Arc::new(build_pool_ex(ctx.seed, ctx.get_u("nosynth", 0) == 1));
     let images: Vec<Vec<u8>> = pool.targets.iter().map(|t| img(t.addr)).collect();
     let refuse_image = bytes_at(refuse_me as usize, 16);
     let refuse_async_addr = poll_addr(&refuse_async(0));
